@@ -30,6 +30,8 @@ FLOOR = 40
 
 
 def check(ctx):
+    # readers (transform / predict / score ...) leave the fitted state untouched and keep no result buffer on the estimator
+    protocols.reader_state_obligations(ctx, "R-STATE", "PCovR", ctx.P.cls("skmatter.decomposition.PCovR"))
     P = ctx.P
     N = ctx.normalizer()
     cls = P.cls(pc.PCOVR)
